@@ -39,6 +39,8 @@ def run_demo(wt, i, meta):
     os.remove(os.path.join(wt, "konst", "tests", name + ".rs"))
     m = re.findall(r"test result: (\w+)\. (\d+) passed; (\d+) failed", out)
     if not m:
+        if "error" in out and ("could not compile" in out or "error[E" in out):
+            return False, "DEMO DOES NOT COMPILE (const-eval / type error):\n" + out[-1500:]
         return None, out[-2000:]
     ok = all(x[0] == "ok" for x in m) and sum(int(x[1]) for x in m) > 0
     return ok, out[-1500:]
